@@ -55,21 +55,22 @@ type regEntry struct {
 
 // RecEvent is a recorded listener notification with what the world reported at delivery time.
 type RecEvent struct {
-	Ev      ecs.EntityEvent
-	Added   []int
-	Removed []int
-	AddIDs  []int
-	RemIDs  []int
-	OldRel  int
-	NewRel  int
-	Locked  bool
-	Held    bool
-	Alive   bool
-	Mask    []int
-	Target  ecs.Entity
-	QCall   int
-	Step    int
-	BatchOK string // non-empty: another affected entity was not yet in its after-state
+	Ev       ecs.EntityEvent
+	Added    []int
+	Removed  []int
+	AddIDs   []int
+	RemIDs   []int
+	OldRel   int
+	NewRel   int
+	Locked   bool
+	Held     bool
+	ValueBad string
+	Alive    bool
+	Mask     []int
+	Target   ecs.Entity
+	QCall    int
+	Step     int
+	BatchOK  string // non-empty: another affected entity was not yet in its after-state
 }
 
 // Sess is one world driven by the harness, with its model and monitors.
@@ -108,6 +109,7 @@ type Sess struct {
 	gsingles   map[string]*gSingle     // long-lived generic Map[T] mappers (C18)
 	builders   map[string]*ecs.Builder // long-lived builders, by configuration
 	dropped    int                     // generic filters registered and dropped (C13)
+	curOp      *Op                     // the operation being executed (for the listener)
 	resMappers map[string][]resAcc     // long-lived generic.Resource mappers (C20)
 	Res        *ResModel
 	ResIDs     []ecs.ResID
@@ -427,7 +429,9 @@ func (s *Sess) Do(op *Op) *Outcome {
 	if s.O.Track && op.Ill == "" {
 		s.modelCounters(op)
 	}
+	s.curOp = op
 	s.call(op, out)
+	s.curOp = nil
 	s.batchAff = nil
 	s.Cov.Ops[op.K]++
 	if HooksOn && s.O.Track && op.Ill == "" && out.Panic == "" {
